@@ -347,7 +347,7 @@ static void build_tables() {
 enum { NT = 11, NKF = 11 };
 static const char* tailname[NT] = {"-", "RawPDU", "gen-l3", "gen-dot1q", "gen-eth", "ARP", "DHCP", "UDP/DHCP", "DHCPv6", "Loopback/gen-l3", "gen-l3-tcp-dns"};
 
-struct Subject { std::unique_ptr<PDU> obj; Bytes base; Off off; int shift = 0; bool v6 = false, structured = false, radiotap_root = false, bare_loopback = false; std::string text; };
+struct Subject { std::unique_ptr<PDU> obj; Bytes base; Off off; int shift = 0; bool v6 = false, structured = false, radiotap_root = false, bare_loopback = false; std::string text; std::vector<u8> first_octets; };      // first_octets: message types a reply to this subject could carry (tried as first octet of the candidate at every length)
 
 static u64 n_calls, n_true, n_misaligned, n_deferred, n_threw;
 static void probe(const PDU& o, const Bytes& content, size_t misalign) {
@@ -383,6 +383,7 @@ static void sweep(const Subject& s, Rng& rng, size_t lo = 0, size_t hi = 128, in
         probe(*s.obj, pre, mis);
         { Bytes m = pre; u32 k = 1 + rng.below(3); for (u32 i = 0; i < k && len; ++i) m[rng.below((u32)std::min<size_t>(len, 96))] = (u8)rng.edgy(8); probe(*s.obj, m, mis); }
         if (s.structured) { Bytes m = pre; struct_mutate(m, s, rng); probe(*s.obj, m, mis); }
+        if (len && only_misalign < 0) for (u8 fo : s.first_octets) { Bytes z(len, 0); z[0] = fo; probe(*s.obj, z, 0); Bytes q2 = rng.bytes(len); q2[0] = fo; if (len > 1 && rng.chance(1, 2)) q2[1] = 0; probe(*s.obj, q2, 0); }
         if (only_misalign < 0) { if (s.bare_loopback && len >= 4) ++n_deferred; else probe(*s.obj, pre, 1 + len % 3); }   // misaligned start
     }
 }
@@ -412,6 +413,10 @@ static void safety_case(long idx, Rng& rng) {
         s.text = "class subject K=" + kd.name + " inner=" + tailname[t];
         PDU* k = kd.make();
         if (!k) { violation("harness/unconstructible/K=" + kd.name, "the monitor cannot construct this concrete class; add a Maker"); return; }
+        // message classes whose matching rule depends on their own type: the subject gets one of the request types, the candidates the reply types
+        if (ICMPv6* c6 = dynamic_cast<ICMPv6*>(k)) { static const ICMPv6::Types ts[] = {ICMPv6::ECHO_REQUEST, ICMPv6::ROUTER_SOLICIT, ICMPv6::NEIGHBOUR_SOLICIT, ICMPv6::MGM_QUERY, ICMPv6::NEIGHBOUR_ADVERT, ICMPv6::DEST_UNREACHABLE}; ICMPv6::Types ty = ts[rng.below(6)]; c6->type(ty); s.text += " type=" + std::to_string((int)ty); s.first_octets = {129, 134, 136, 131, 143, 1, 3}; cnt("safety_typed_subjects:ICMPv6"); }
+        if (ICMP* c4 = dynamic_cast<ICMP*>(k)) { static const ICMP::Flags ts[] = {ICMP::ECHO_REQUEST, ICMP::TIMESTAMP_REQUEST, ICMP::ADDRESS_MASK_REQUEST, ICMP::INFO_REQUEST, ICMP::ECHO_REPLY, ICMP::DEST_UNREACHABLE}; ICMP::Flags ty = ts[rng.below(6)]; c4->type(ty); s.text += " type=" + std::to_string((int)ty); s.first_octets = {0, 14, 18, 16, 3, 11, 5}; cnt("safety_typed_subjects:ICMP"); }
+        if (ARP* ar = dynamic_cast<ARP*>(k)) { ar->opcode(rng.chance(1, 2) ? ARP::REQUEST : ARP::REPLY); }
         size_t hs = k->header_size();
         s.radiotap_root = kd.name == "RadioTap"; s.bare_loopback = kd.name == "Loopback" && t == 0;
         switch (t) {
